@@ -82,6 +82,7 @@ def cases(draw):
         st.fixed_dictionaries({"op": st.just("iadd"), "a": arr}),
         st.fixed_dictionaries({"op": st.just("add"), "a": arr}),
         st.just({"op": "empty"}),
+        st.fixed_dictionaries({"op": st.just("det_empty"), "reset": st.booleans()}),  # the reset the exposure loop applies before every readout step
         st.fixed_dictionaries({"op": st.just("read"), "how": st.sampled_from(["array", "asarray", "dtype", "shape", "to_xarray", "array_3d", "array_2d"])}),
         st.fixed_dictionaries({"op": st.just("twin_set"), "a": arr}),
         st.just({"op": "twin_empty"}),
@@ -411,6 +412,15 @@ def body(case, rec):
         elif o == "empty":
             c.empty()
             model = np.zeros((rows, cols), dtype=float) if kind == "pixel" else None
+        elif o == "det_empty":
+            rec.cls("det_empty:destructive" if op["reset"] else "det_empty:non_destructive")
+            det.empty(op["reset"])
+            if kind in ("photon", "signal", "image"):
+                model = None  # emptied whatever the readout mode
+            elif kind == "pixel":
+                model = np.zeros((rows, cols), dtype=float) if op["reset"] else model  # kept in non-destructive mode
+            else:
+                model = read_state(c, kind)  # phase: MKID zeroes it in place on a destructive reset; only the invariants are asserted
         elif o == "twin_empty":
             twin.empty()
             tmodel = np.zeros((rows, cols), dtype=float) if kind == "pixel" else None
